@@ -55,7 +55,10 @@ def declare(E, keep_readers=()):
                       "sig_wellformed": "len(msg.packet.getvalue()) >= 4 and unpack32(msg.packet.getvalue()[0:4]) <= len(msg.packet.getvalue()) - 4",
                       "sig_alg": "msg.packet.getvalue()[4:4 + unpack32(msg.packet.getvalue()[0:4])]"},
                # key classes can raise on malformed signature blobs (C35); the handler must not treat that as valid
-               raises={"Exception": {"when": "True", "ghost": {"verify_raised": "True"}}})
+               # (SSHException listed on its own: a handler for that class is not entered by the generic outcome)
+               raises={"Exception": {"when": "True", "ghost": {"verify_raised": "True"}},
+                       "SSHException": {"when": "True", "ghost": {"verify_raised": "True"}},
+                       "ValueError": {"when": "True", "ghost": {"verify_raised": "True"}}})
     E.declare_ghost(verify_raised="bool")
     E.contract(AH + "_get_key_type_and_bits", returns="tuple[str,bytes]",
                ensures=["result[1] == fn('key_bits', 'bytes', key)", "len(result[1]) < 2**32"], modifies=[])
